@@ -27,11 +27,12 @@ def gen_ring(rng, nops):
             elif r < 90: ops.append("Q,%d" % i)
             else:
                 j = rng.below(3)
-                if j != i and st[j] is not None:
+                if j != i:                          # the source may be unallocated as well
                     k = rng.below(4)
-                    if k == 3: ops.append("CA,%d,%d" % (i, j)); st[i] = [st[j][0], list(st[j][1])]   # copy-assign onto an unallocated buffer
+                    cp = None if st[j] is None else [st[j][0], list(st[j][1])]
+                    if k == 3: ops.append("CA,%d,%d" % (i, j)); st[i] = cp   # copy-assign onto an unallocated buffer
                     elif k == 0: ops.append("MA,%d,%d" % (i, j)); st[i] = st[j]; st[j] = None
-                    elif k == 1: ops.append("CC,%d,%d" % (i, j)); st[i] = [st[j][0], list(st[j][1])]
+                    elif k == 1: ops.append("CC,%d,%d" % (i, j)); st[i] = cp
                     else: ops.append("MC,%d,%d" % (i, j)); st[i] = st[j]; st[j] = None
             continue
         m, l = v
@@ -56,9 +57,9 @@ def gen_ring(rng, nops):
         elif name == "D": ops.append("D,%d" % i); st[i] = None
         elif name in ("CA", "MA", "CC", "MC"):
             j = rng.below(3)
-            if j == i or st[j] is None: continue
+            if j == i: continue
             ops.append("%s,%d,%d" % (name, i, j))
-            if name in ("CA", "CC"): st[i] = [st[j][0], list(st[j][1])]
+            if name in ("CA", "CC"): st[i] = None if st[j] is None else [st[j][0], list(st[j][1])]
             else: st[i] = st[j]; st[j] = None
     for i in range(3): ops.append("Q,%d" % i)
     return "ring " + " ".join(ops)
